@@ -134,6 +134,10 @@ struct Writer {
 
     /// The number of bytes that have been written to the currently active file.
     written_bytes: u64,
+
+    /// Set when an append or a merge failed and the clean-up that follows could not be finished.
+    /// Nothing is appended until the clean-up has been done.
+    needs_cleanup: bool,
 }
 
 /// The reader reads log entries from data files given the locations found in KeyDir. Since data files
@@ -188,6 +192,7 @@ impl Bitcask {
             ))?)?,
             active_fileid,
             written_bytes: 0,
+            needs_cleanup: false,
         }));
 
         let handle = Handle {
@@ -411,6 +416,9 @@ impl Writer {
         key: Bytes,
         value: Option<Bytes>,
     ) -> Result<KeyDirEntry, Error> {
+        if self.needs_cleanup {
+            self.cleanup()?;
+        }
         // Append log entry
         let datafile_entry = DataFileEntry { tstamp, key, value };
         let index = match self.writer.append(&datafile_entry) {
@@ -419,14 +427,8 @@ impl Writer {
                 // The active file may now end with a partial entry, and nothing can be appended
                 // after that without corrupting the file, so we continue in a new active file.
                 // What is left of the failed entry in the buffer must never reach the file.
-                let fileid = self.next_fileid()?;
-                let writer = LogWriter::new(log::create(utils::datafile_name(
-                    self.ctx.conf.path.as_path(),
-                    fileid,
-                ))?)?;
-                std::mem::replace(&mut self.writer, writer).discard();
-                self.active_fileid = fileid;
-                self.written_bytes = 0;
+                self.needs_cleanup = true;
+                self.cleanup()?;
                 return Err(e.into());
             }
         };
@@ -478,23 +480,44 @@ impl Writer {
 
     /// Copy data from files that are included for merging. Once finish, copied files are deleted.
     fn merge(&mut self) -> Result<(), Error> {
+        if self.needs_cleanup {
+            self.cleanup()?;
+        }
         let result = self.merge_files();
         if result.is_err() {
-            // The failed merge may have left files behind, they are the ones above the active
-            // file. Their hint files can be incomplete, without them the data files get scanned
-            // when the storage is reopened.
-            let path = self.ctx.conf.path.as_path();
-            for fileid in utils::sorted_fileids(path)? {
-                if fileid > self.active_fileid {
-                    let _ = fs::remove_file(utils::hintfile_name(path, fileid));
-                }
-            }
-            // The entries that are appended from now on have to go into a file above those,
-            // otherwise they are hidden by the older entries that the merge copied once the
-            // storage gets reopened.
-            self.new_active_datafile(self.next_fileid()?)?;
+            self.needs_cleanup = true;
+            self.cleanup()?;
         }
         result
+    }
+
+    /// Clean up after a failed append or a failed merge. If the clean-up fails as well, it is
+    /// tried again before the next entry is appended.
+    fn cleanup(&mut self) -> Result<(), Error> {
+        // A failed merge may have left files behind, they are the ones above the active file.
+        // Their hint files can be incomplete, without them the data files get scanned when the
+        // storage is reopened.
+        let path = self.ctx.conf.path.as_path();
+        for fileid in utils::sorted_fileids(path)? {
+            if fileid > self.active_fileid {
+                if let Err(e) = fs::remove_file(utils::hintfile_name(path, fileid)) {
+                    if e.kind() != io::ErrorKind::NotFound {
+                        return Err(e.into());
+                    }
+                }
+            }
+        }
+        // The entries that are appended from now on have to go into a new file above those.
+        // Otherwise they come after the partial entry of a failed append, or they are hidden by
+        // the older entries that the merge copied once the storage gets reopened. What is left
+        // of a failed entry in the buffer must never reach the file.
+        let fileid = self.next_fileid()?;
+        let writer = LogWriter::new(log::create(utils::datafile_name(path, fileid))?)?;
+        std::mem::replace(&mut self.writer, writer).discard();
+        self.active_fileid = fileid;
+        self.written_bytes = 0;
+        self.needs_cleanup = false;
+        Ok(())
     }
 
     #[tracing::instrument(level = "debug", skip(self))]
